@@ -94,6 +94,16 @@ func (e *Exec) unknownInvoke(st *State, fr *Frame, cc *ssa.CallCommon, in ssa.In
 	if h := e.W.invokeHook(e, st, fr, cc, in, rt, iv); h != nil {
 		return h
 	}
+	if ct := e.W.ifaceContract(cc.Value.Type(), name); ct != nil && len(ct.Impls) > 0 {
+		// modular call through the interface's contract (every implementation is verified against it)
+		fn0 := e.W.FnByKey[ct.Impls[0]]
+		args := []Val{iv}
+		for _, a := range cc.Args {
+			args = append(args, e.val(st, fr, a))
+		}
+		e.UsedContracts[ct.Key] = true
+		return e.applyContract(st, fr, fn0, ct, args, in, rt)
+	}
 	// interface declared outside the module (io.Reader, cipher.BlockMode, hash.Hash, net.Conn ...): abstract call
 	if nt, ok := cc.Value.Type().(*types.Named); ok && nt.Obj().Pkg() != nil && !strings.HasPrefix(nt.Obj().Pkg().Path(), modulePath) {
 		var args []Val
